@@ -136,10 +136,13 @@ def label_failure(ev, defn, lims):
     def inlim(y):
         return all((lo is None or y[i] >= lo) and (hi is None or y[i] <= hi) for i, (lo, hi) in enumerate(lims))
     if ev["ok"]:
+        parts = []
         if not inlim(xa) or not inlim(tgt):
-            return "limits"
+            parts.append("limits")
         if np.any(xa != tgt) or np.any(c < 0):
-            return "walk"
+            parts.append("walk")           # an accepted step is not x + V.counts (whatever the limits say)
+        if parts:
+            return "+".join(parts)
     else:
         if np.any(xa != xb) or inlim(tgt):
             return "limits"
